@@ -356,7 +356,13 @@ func (c *Ctx) graftIndexAfterEdit() {
 	var last ast.Node
 	for _, call := range callsIn(fi.Decl.Body, false) {
 		fn := calleeOf(info, call)
-		if fn != nil && (fn.Name() == "addChild" || fn.Name() == "setRight" || fn.Name() == "setLeft" || fn.Name() == "ConnectNodes") {
+		isEdit := func(g *types.Func) bool {
+			return g != nil && inRepo(g) && (g.Name() == "addChild" || g.Name() == "setRight" || g.Name() == "setLeft" || g.Name() == "ConnectNodes")
+		}
+		if isEdit(fn) {
+			last = call
+		} else if fn != nil && inRepo(fn) && fn != fi.Obj && !c.reaches(fn, func(g *types.Func) bool { return isRepoFunc(g, "tree", "Tree", "UpdateTipIndex") }, 3, map[*types.Func]bool{}) && c.reaches(fn, isEdit, 2, map[*types.Func]bool{}) {
+			// the splice done by a helper (`replaceChildAt(parent, edge, idx, node)`)
 			last = call
 		}
 	}
